@@ -149,8 +149,33 @@ func watchdog(limit time.Duration) {
 				break
 			}
 		}
+		rule, what := ".deadlock", "a goroutine blocked in sync.Mutex.Lock in "
 		if site == "" {
-			fmt.Fprintf(os.Stderr, "WATCHDOG: no progress for %v and no goroutine blocked on a mutex in repo code\n", limit)
+			// A goroutine that is executing code of the repository now and
+			// still a second later, with no quiescent point for the whole
+			// limit: the system under test spins (a loop that never ends).
+			spin := func(st string) map[string]string {
+				out := map[string]string{}
+				for _, g := range strings.Split(st, "\n\n") {
+					head, _, _ := strings.Cut(g, "\n")
+					if (strings.Contains(head, "[running") || strings.Contains(head, "[runnable")) && strings.Contains(g, "gca-backend/") {
+						id, _, _ := strings.Cut(head, " [")
+						out[id] = TopRepoFunc(g)
+					}
+				}
+				return out
+			}
+			first := spin(stacks)
+			time.Sleep(time.Second)
+			n2 := runtime.Stack(buf, true)
+			for id, fn := range spin(string(buf[:n2])) {
+				if _, ok := first[id]; ok && fn != "" && progress.Load() == last {
+					site, rule, what = fn, ".livelock", "a goroutine spinning in "
+				}
+			}
+		}
+		if site == "" {
+			fmt.Fprintf(os.Stderr, "WATCHDOG: no progress for %v and no goroutine blocked on a mutex or spinning in repo code\n", limit)
 			os.Exit(4)
 		}
 		rec := *meta
@@ -159,9 +184,9 @@ func watchdog(limit time.Duration) {
 			rec.Trace = tail(m.Trace, 60)
 			rec.Faults = m.Faults
 		}
-		rec.Rule = rec.Property + ".deadlock"
+		rec.Rule = rec.Property + rule
 		rec.Site = site
-		rec.Detail = "no progress for " + limit.String() + " of real time with a goroutine blocked in sync.Mutex.Lock in " + site
+		rec.Detail = "no progress for " + limit.String() + " of real time with " + what + site
 		writeViolation(&rec)
 		os.Exit(3)
 	}
